@@ -177,6 +177,102 @@ func decisionShape(s *source, list []ast.Stmt, out *[]string) {
 	}
 }
 
+// c19PureCalls: calls that cannot touch Redis or the lock's shared word (conversions, formatting, logging,
+// error inspection). Everything else a function calls is listed by effectCalls and tied.
+var c19PureCalls = map[string]bool{
+	"int": true, "uint32": true, "string": true, "len": true, "make": true,
+	"strconv.Itoa": true, "errors.Is": true, "err.Error": true,
+	"logx.Errorf": true, "logx.Error": true, "fmt.Sprintf": true, "fmt.Errorf": true,
+	"context.Background": true,
+}
+
+// effectCalls lists, in source order (outer call before its arguments), the callee of every call
+// expression in the function that is not in c19PureCalls: the store round trips, the atomic accesses of the
+// shared `seconds` word and any helper that could hide one.
+func effectCalls(s *source, fd *ast.FuncDecl) []string {
+	var out []string
+	ast.Inspect(fd.Body, func(n ast.Node) bool {
+		if c, ok := n.(*ast.CallExpr); ok {
+			name := s.src(c.Fun)
+			if !c19PureCalls[name] {
+				out = append(out, name)
+			}
+		}
+		return true
+	})
+	if out == nil {
+		out = []string{}
+	}
+	return out
+}
+
+// constSrc returns the source text of a package-level constant's value expression.
+func constSrc(s *source, rel, name string) string {
+	f := s.file(rel)
+	if f == nil {
+		return "MISSING"
+	}
+	for _, d := range f.Decls {
+		gd, ok := d.(*ast.GenDecl)
+		if !ok {
+			continue
+		}
+		for _, sp := range gd.Specs {
+			vs, ok := sp.(*ast.ValueSpec)
+			if !ok {
+				continue
+			}
+			for i, n := range vs.Names {
+				if n.Name == name && i < len(vs.Values) {
+					return s.src(vs.Values[i])
+				}
+			}
+		}
+	}
+	return "MISSING"
+}
+
+// flatStmts prints every statement of a block, flattened, with block structure as `{` / `}` tokens.
+func flatStmts(s *source, list []ast.Stmt, out *[]string) {
+	for _, st := range list {
+		switch x := st.(type) {
+		case *ast.ForStmt:
+			h := "for "
+			if x.Init != nil {
+				h += s.src(x.Init)
+			}
+			h += "; "
+			if x.Cond != nil {
+				h += s.src(x.Cond)
+			}
+			h += "; "
+			if x.Post != nil {
+				h += s.src(x.Post)
+			}
+			*out = append(*out, h+" {")
+			flatStmts(s, x.Body.List, out)
+			*out = append(*out, "}")
+		case *ast.IfStmt:
+			h := "if "
+			if x.Init != nil {
+				h += s.src(x.Init) + "; "
+			}
+			*out = append(*out, h+s.src(x.Cond)+" {")
+			flatStmts(s, x.Body.List, out)
+			*out = append(*out, "}")
+			if x.Else != nil {
+				*out = append(*out, "else {")
+				flatStmts(s, []ast.Stmt{x.Else}, out)
+				*out = append(*out, "}")
+			}
+		case *ast.BlockStmt:
+			flatStmts(s, x.List, out)
+		default:
+			*out = append(*out, s.src(st))
+		}
+	}
+}
+
 func init() {
 	register("C19", func(s *source, e *emitter) {
 		const f = "core/stores/redis/redislock.go"
@@ -254,6 +350,41 @@ func init() {
 			e.stringList(fn.lean+"Decisions", "conditions, type assertions and returns of `"+fn.goName+"`", dec)
 		}
 		e.shapeDef(s, f, "RedisLock.SetExpire", "setExpireShape")
+
+		// every call that could be a store round trip or an access of the shared word, per function on the path
+		for _, fn := range []struct{ file, goName, lean, doc string }{
+			{f, "RedisLock.AcquireCtx", "acquireStoreCalls", "AcquireCtx"},
+			{f, "RedisLock.ReleaseCtx", "releaseStoreCalls", "ReleaseCtx"},
+			{f, "RedisLock.Acquire", "acquireWrapperCalls", "Acquire"},
+			{f, "RedisLock.Release", "releaseWrapperCalls", "Release"},
+			{f, "RedisLock.SetExpire", "setExpireCalls", "SetExpire"},
+			{f, "NewRedisLock", "newLockCalls", "NewRedisLock"},
+			{"core/stores/redis/redis.go", "Redis.ScriptRunCtx", "scriptRunCtxCalls", "Redis.ScriptRunCtx"},
+		} {
+			fd := s.findFunc(fn.file, fn.goName)
+			if fd == nil {
+				e.errors = append(e.errors, fmt.Sprintf("function %s not found in %s", fn.goName, fn.file))
+				e.stringList(fn.lean, "MISSING", []string{"MISSING"})
+				continue
+			}
+			e.stringList(fn.lean, "callees of `"+fn.doc+"` in source order, without conversions / formatting / logging / error inspection", effectCalls(s, fd))
+		}
+
+		// the ids: stringx.Randn — alphabet, index width, rejection of out-of-alphabet indices
+		const rf = "core/stringx/random.go"
+		e.constDef(s, rf, "letterBytes", "letterBytes")
+		e.constDef(s, rf, "letterIdxBits", "letterIdxBits")
+		// (the shared constant evaluator has no shifts: the two derived constants are tied as source text)
+		e.stringList("letterIdxDerived", "`letterIdxMask` and `letterIdxMax` as written", []string{
+			"letterIdxMask = " + constSrc(s, rf, "letterIdxMask"), "letterIdxMax = " + constSrc(s, rf, "letterIdxMax")})
+		if fd := s.findFunc(rf, "Randn"); fd == nil {
+			e.errors = append(e.errors, "function Randn not found in "+rf)
+			e.stringList("randnBody", "MISSING", []string{"MISSING"})
+		} else {
+			var body []string
+			flatStmts(s, fd.Body.List, &body)
+			e.stringList("randnBody", "statements of `stringx.Randn`", body)
+		}
 		// the fields NewRedisLock sets (id must be a fresh random string per instance, key the caller's key)
 		if fd := s.findFunc(f, "NewRedisLock"); fd == nil {
 			e.errors = append(e.errors, "function NewRedisLock not found in "+f)
